@@ -251,7 +251,9 @@ fn make_crypto_reader<'a>(
                 Some(r) => CryptoReader::ZipCrypto(r),
             }
         }
-        (None, Some(_)) => return Ok(Err(InvalidPassword)),
+        (None, Some(_)) => {
+            return Err(ZipError::UnsupportedArchive(ZipError::PASSWORD_REQUIRED))
+        }
         (None, None) => CryptoReader::Plaintext(reader),
     };
     Ok(Ok(reader))
